@@ -55,8 +55,9 @@ EXP_MAX = 709.0       # exp(x) overflows at 709.78
 NEAR_MAX = 640.0      # cause probe: back-extrapolation this close to the overflow has no room for t < 0
 
 SAMPLES = dict(
-    quick=("Co30Fe70", "Au", "NaCl", "Eu", "Co", "SiO2", "Hf", "Lu2O3"),
-    thorough=("Co30Fe70", "Au", "NaCl", "Eu", "Co", "SiO2", "In", "Hf", "Ag", "Lu2O3", "CdTe", "B4C"),
+    quick=("Co30Fe70", "Au", "NaCl", "Eu", "Co", "SiO2", "Hf", "Lu2O3", "Cu[63]0.5Cu0.5", "Co[59]Co"),
+    thorough=("Co30Fe70", "Au", "NaCl", "Eu", "Co", "SiO2", "In", "Hf", "Ag", "Lu2O3", "CdTe", "B4C",
+              "Cu[63]0.5Cu0.5", "Co[59]Co", "Li[6]0.3Li0.7F"),
 )
 # the two tiers differ only in the samples; the grid below costs seconds
 MASSES = (1e-3, 1.0, 10.0, 1e3)
@@ -78,10 +79,10 @@ META = dict(
           "Sample.calculate_activation + Sample.decay_time on a fresh Sample; a case is non-trivial when the "
           "activity at removal is above the target, so that a positive time has to be solved for"),
     bound=dict(
-        quick="8 samples (Co30Fe70, Au, NaCl, Eu, Co, SiO2, Hf, Lu2O3) x 4 masses x 3 environments x 3 exposures = 288 "
+        quick="10 samples (Co30Fe70, Au, NaCl, Eu, Co, SiO2, Hf, Lu2O3, Cu[63]0.5Cu0.5, Co[59]Co - the last two name an isotope and its natural element) x 4 masses x 3 environments x 3 exposures = 360 "
               "configurations x (17 + 2) rest-time lists x 26 target multipliers (1e-9 .. 10 times the activity at "
               "removal, with 1-1e-9, 1, 1+1e-9)",
-        thorough="12 samples (quick + In, Ag, CdTe, B4C) x 4 masses x 3 environments x 3 exposures = 432 "
+        thorough="15 samples (quick + In, Ag, CdTe, B4C, Li[6]0.3Li0.7F) x 4 masses x 3 environments x 3 exposures = 432 "
                  "configurations x (17 + 2) rest-time lists x 26 target multipliers (contains the quick grid)"),
     assumptions=[
         "the activities at removal and the half-lives are those served by calculate_activation(rest_times=[0]) "
